@@ -69,6 +69,22 @@ def ty_of(q):
         return "int"
     if q0.endswith("QObjectHandlerPrivate::Method"):
         return "reg"
+    if ROUTE_TYPES[0]:
+        q1 = q0.replace("QHttpEngine::", "").replace(" ", "")
+        if q1 in ("QList<Middleware*>",):
+            return "mwlist"
+        if q1 in ("QList<Redirect>", "QList<QPair<QRegExp,QString>>"):
+            return "redirlist"
+        if q1 in ("QList<SubHandler>", "QList<QPair<QRegExp,Handler*>>"):
+            return "sublist"
+        if q1 == "Middleware*":
+            return "mwp"
+        if q1 in ("Redirect", "QPair<QRegExp,QString>"):
+            return "redir"
+        if q1 in ("SubHandler", "QPair<QRegExp,Handler*>"):
+            return "subh"
+        if q1 == "QStringList":
+            return "qslist"
     if "QByteArray" in q0 or "IByteArray" in q0 or q0.startswith("char") or "char *" in q0 or "char[" in q0:
         return "bytes"
     if "QJsonDocument" in q0:
@@ -80,7 +96,11 @@ def ty_of(q):
     return "?" + q0
 
 
-LEAN_TY = {"bool": "Bool", "int": "Int", "bytes": "Bytes", "obytes": "Option Bytes", "hmap": "HeaderMap", "json": "Bytes",
+ROUTE_TYPES = [False]
+LIST_ELEM = {"blist": "bytes", "mwlist": "mwp", "redirlist": "redir", "sublist": "subh"}
+LEAN_TY = {"mwp": "(Nat × Bool)", "redir": "(Nat × QStr)", "subh": "(Nat × Node)", "mwlist": "List (Nat × Bool)", "redirlist": "List (Nat × QStr)",
+           "sublist": "List (Nat × Node)", "qslist": "List QStr", "regex": "Nat", "node": "Node",
+           "bool": "Bool", "int": "Int", "bytes": "Bytes", "obytes": "Option Bytes", "hmap": "HeaderMap", "json": "Bytes",
            "rstate": "RState", "wstate": "WState", "blist": "List Bytes", "reg": "SlotHandler.Reg", "qstr": "QStr"}
 
 # C++ member of SocketPrivate -> (field of Qhttp.Sock, type)
@@ -1303,12 +1323,13 @@ class Fn:
             b0 = body
             while b0.get("kind") == "CompoundStmt" and len(kids(b0)) == 1:
                 b0 = kids(b0)[0]
-            if tl != "blist" or pl or b0.get("kind") != "IfStmt":
+            if tl not in LIST_ELEM or pl or b0.get("kind") != "IfStmt":
                 return None
             parts = kids(b0)
             if parts[0].get("kind") != "DeclStmt":
                 return None
             elem = kids(parts[0])[0]["name"]
+            self.iter_elem_ty = LIST_ELEM[tl]
             return elem, cl, self.flatten(parts[-1]), False
         if i0.get("kind") == "IntegerLiteral" and i0.get("value") == "0" and ty_of(qt(v)) == "int":
             iname = v["name"]
@@ -1371,7 +1392,10 @@ class Fn:
         self.nloops += 1
         g = "go%d" % self.nloops
         rty = LEAN_TY.get(self.ret, "Unit") if self.ret != "void" else "Unit"
+        self.iter_elem_ty = "bytes"
         it = self.list_iteration(s, env)
+        elem_ty = self.iter_elem_ty
+        carry = getattr(self, "carry_state", False)
         pre_lines = []
         if it:
             elem, lcode, bss, deref = it
@@ -1397,26 +1421,26 @@ class Fn:
             if not re.match(r"^[A-Za-z_][A-Za-z0-9_']*$", env[nme][0]) or env[nme][1] not in LEAN_TY:
                 raise Untranslatable("loop that assigns " + nme)
         def tup(exitc, e):
-            parts = [exitc] + [e[v][0] for v in names]
+            parts = [exitc] + (["s"] if carry else []) + [e[v][0] for v in names]
             return parts[0] if len(parts) == 1 else "(" + ", ".join(parts) + ")"
-        params = "".join(" (%s : %s)" % (env[v][0], LEAN_TY[env[v][1]]) for v in names)
-        oty = " × ".join(["Option " + rty] + [LEAN_TY[env[v][1]] for v in names])
+        params = (" (s : %s)" % self.state_ty if carry else "") + "".join(" (%s : %s)" % (env[v][0], LEAN_TY[env[v][1]]) for v in names)
+        oty = " × ".join(["Option " + rty] + ([self.state_ty] if carry else []) + [LEAN_TY[env[v][1]] for v in names])
         saved_ret, saved_cont = self.ret_override, self.cont_cb
         self.ret_override = lambda val, e: tup("(some %s)" % (val if val is not None else "()"), e)
         try:
             if it:
-                again = lambda e: "%s tl_%s" % (g, "".join(" " + e[v][0] for v in names))
+                again = lambda e: "%s tl_%s%s" % (g, " s" if carry else "", "".join(" " + e[v][0] for v in names))
                 self.cont_cb = again
                 env_in = dict(env)
-                env_in[elem] = (elem, "bytes")
+                env_in[elem] = (elem, elem_ty)
                 if deref == "index":
                     env_in["$index"] = (self.index_elem, elem)
                 elif deref:
                     env_in[elem] = (elem, "iterelem")
                 body_code = self.stmts(bss, env_in, again, lambda e: tup("none", e))
-                fn = "let rec %s (l_ : List Bytes)%s : %s :=\n  match l_ with\n  | [] => %s\n  | %s :: tl_ =>\n%s" % (
-                    g, params, oty, tup("none", env), elem, ind(body_code, 4))
-                call = "%s %s%s" % (g, lcode, "".join(" " + env[v][0] for v in names))
+                fn = "let rec %s (l_ : List %s)%s : %s :=\n  match l_ with\n  | [] => %s\n  | %s :: tl_ =>\n%s" % (
+                    g, LEAN_TY[elem_ty], params, oty, tup("none", env), elem, ind(body_code, 4))
+                call = "%s %s%s%s" % (g, lcode, " s" if carry else "", "".join(" " + env[v][0] for v in names))
             else:
                 def again(e):
                     if not inc_ss:
@@ -2674,6 +2698,160 @@ class LambdaFn(SrvFn):
         return Fn.simple(self, s, env)
 
 
+ROUTE_WANTED = ["Handler::route"]
+LOC_KEEP = "/:?#[]@!$&'()*+,;=%"
+
+
+class RouteFn(Fn):
+    """`Handler::route`: one node of the handler tree over the vocabulary of `Qhttp/Model/RxPrim.lean` (the three loops over
+    middleware, redirects and sub-handlers; QRegExp answers come from the model's matcher; a sub-handler's route() is the
+    model's `route` on that node)."""
+    def __init__(self, ctx, key):
+        Fn.__init__(self, ctx, key)
+        self.state_ty = "List Act"
+        self.env_sig = "(re : Rx.Env) "
+        self.uses_env = True
+        self.carry_state = True
+        self.params = [p for p in self.params if not p[2].startswith("?")]          # Socket *socket
+        self.last_subject = {}
+
+    def member(self, n):
+        n = strip(n)
+        if n.get("kind") == "MemberExpr" and kids(n):
+            base = strip(kids(n)[0])
+            if base.get("kind") == "MemberExpr" and base.get("name") == "d" and kids(base) and strip(kids(base)[0]).get("kind") == "CXXThisExpr":
+                return n["name"]
+        return None
+
+    def obj_path(self, n):
+        n0 = strip(n)
+        if n0.get("kind") == "DeclRefExpr" and n0.get("referencedDecl", {}).get("name") == "socket":
+            return "socket"
+        if n0.get("kind") == "CXXThisExpr":
+            return "this"
+        return None
+
+    def effectful(self, n):
+        n0 = strip(n)
+        if n0.get("kind") == "CXXMemberCallExpr":
+            callee = strip(kids(n0)[0])
+            if callee.get("name") in ("process", "route", "writeRedirect", "writeError"):
+                return True
+        return any(self.effectful(c) for c in kids(n0))
+
+    def ex(self, n, env):
+        n0 = strip(n)
+        if n0.get("kind") == "MemberExpr":
+            m = self.member(n0)
+            if m == "middleware":
+                return [], "re.mws", "mwlist"
+            if m == "redirects":
+                return [], "re.redirects", "redirlist"
+            if m == "subHandlers":
+                return [], "re.subs", "sublist"
+            if n0.get("name") in ("first", "second") and kids(n0):
+                p, c, t = self.ex(kids(n0)[0], env)
+                if t in ("redir", "subh") and not p:
+                    if n0["name"] == "first":
+                        return [], "%s.1" % c, "regex"
+                    return [], "%s.2" % c, ("qstr" if t == "redir" else "node")
+        return Fn.ex(self, n, env)
+
+    def call_member(self, n, env, want_value):
+        ks = kids(n)
+        callee = strip(ks[0])
+        if callee.get("kind") == "MemberExpr" and kids(callee):
+            objn = kids(callee)[0]
+            nm = callee["name"]
+            real = [x for x in ks[1:] if x.get("kind") != "CXXDefaultArgExpr"]
+            obj = self.obj_path(objn)
+            if obj == "socket" and nm == "writeRedirect" and len(real) == 1:
+                a0 = strip(real[0])
+                # QUrl::toPercentEncoding(text, "<the characters a URL may contain>")
+                if a0.get("kind") == "CallExpr" and strip(kids(a0)[0]).get("referencedDecl", {}).get("name") == "toPercentEncoding":
+                    ar = [x for x in kids(a0)[1:] if x.get("kind") != "CXXDefaultArgExpr"]
+                    if len(ar) == 2 and strip(ar[1]).get("kind") == "StringLiteral" and json.loads(strip(ar[1])["value"]) == LOC_KEEP:
+                        p, c, t = self.ex(ar[0], env)
+                        if t == "qstr":
+                            return p + ["let s := Rx.redirect s re %s" % c], "()", "void"
+                raise Untranslatable("writeRedirect() of something else than the percent-encoded new path")
+            if obj == "this" and nm == "process" and len(real) == 2 and self.obj_path(real[0]) == "socket":
+                p, c, t = self.ex(real[1], env)
+                if t == "qstr":
+                    return p + ["let s := Rx.process s re %s" % c], "()", "void"
+            # calls on locals / their members
+            pre0, oc, ot = self.ex(objn, env)
+            if ot == "mwp" and nm == "process" and len(real) == 1 and self.obj_path(real[0]) == "socket":
+                t = self.ctx.fresh()
+                return pre0 + ["let (s, %s) := Rx.mwProcess s %s" % (t, oc)], t, "bool"
+            if ot == "node" and nm == "route" and len(real) == 2 and self.obj_path(real[0]) == "socket":
+                p, c, t = self.ex(real[1], env)
+                if t == "qstr":
+                    return pre0 + p + ["let s := Rx.subRoute s re %s %s" % (oc, c)], "()", "void"
+            if ot == "regex":
+                if nm == "indexIn" and len(real) == 1:
+                    p, c, t = self.ex(real[0], env)
+                    if t == "qstr" and not p:
+                        self.last_subject[oc] = c
+                        return pre0, "(Rx.indexIn re %s %s)" % (oc, c), "int"
+                if nm == "matchedLength" and not real and oc in self.last_subject:
+                    return pre0, "(Rx.matchedLength re %s %s)" % (oc, self.last_subject[oc]), "int"
+                if nm == "capturedTexts" and not real and oc in self.last_subject:
+                    return pre0, "(Rx.allCaps re %s %s)" % (oc, self.last_subject[oc]), "allcaps"
+            if ot == "allcaps" and nm == "mid" and len(real) == 1 and strip(real[0]).get("kind") == "IntegerLiteral" and strip(real[0]).get("value") == "1":
+                return pre0, oc.replace("Rx.allCaps", "Rx.caps", 1), "qslist"
+            if ot == "qstr" and nm == "mid" and len(real) == 1:
+                p, c, t = self.ex(real[0], env)
+                if t == "int":
+                    return pre0 + p, "(Rx.qmid %s %s)" % (oc, c), "qstr"
+            raise Untranslatable("call %s on a value of type %s in Handler::route" % (nm, ot))
+        return Fn.call_member(self, n, env, want_value)
+
+    def call_free(self, n, env, want_value):
+        ks = kids(n)
+        fn = strip(ks[0])
+        nm = fn.get("referencedDecl", {}).get("name")
+        real = [x for x in ks[1:] if x.get("kind") != "CXXDefaultArgExpr"]
+        if nm == "substituteCaptures" and len(real) == 2:
+            pre, a = self.args(real, env)
+            if [t for _, t in a] == ["qstr", "qslist"]:
+                return pre, "(Qhttp.substitute %s %s)" % (a[0][0], a[1][0]), "qstr"
+        raise Untranslatable("call to %s in Handler::route" % nm)
+
+    def stmts(self, ss, env, k, brk):
+        if ss:
+            s0 = strip(ss[0]) if ss[0].get("kind") in ("ExprWithCleanups",) else ss[0]
+            if s0.get("kind") == "ForStmt":
+                return self.loop(s0, ss[1:], env, k, brk)
+        return Fn.stmts(self, ss, env, k, brk)
+
+
+def translate_route(repo, exp):
+    ROUTE_TYPES[0] = True
+    try:
+        docs = clang_ast(repo, "handler.cpp", "QHttpEngine::Handler::route", exp)
+        decls = {}
+        for d in docs:
+            if d.get("kind") == "CXXMethodDecl" and body_of(d) is not None and d.get("name") == "route":
+                decls["Handler::route"] = d
+        ctx = Ctx(decls, {}, "")
+        ctx.fetch = lambda name: clang_ast(repo, "handler.cpp", name, exp)
+        ctx.fn_class = RouteFn
+        done, failed = [], []
+        try:
+            ctx.need("Handler::route")
+        except Untranslatable as e:
+            failed.append("Handler::route (%s)" % e)
+        out = ["-- GENERATED on every run by tools/cxx2lean_qt.py from src/src/handler.cpp — do not edit.",
+               "import Qhttp.Model.RxPrim", "set_option linter.unusedVariables false", "", "namespace QhttpGen.Route", "open Qhttp", ""]
+        for key in ctx.order:
+            out.append(ctx.code[key]); done.append(key)
+        out.append("end QhttpGen.Route\n")
+        return "\n".join(out), done, failed
+    finally:
+        ROUTE_TYPES[0] = False
+
+
 class PhFn(Fn):
     """`ProxyHandler::process`: the socket is re-parented to the handler and a ProxySocket is created for it with the routed
     path and the configured upstream address (actions of `Qhttp/Model/VxPrim.lean`)"""
@@ -2895,6 +3073,11 @@ if __name__ == "__main__":
     import sys
     if len(sys.argv) > 2 and sys.argv[2] == "fs":
         text, done, failed = translate_fs(sys.argv[1], "/repo/_build/src")
+        print(text)
+        print("-- done:", done, "\n-- failed:", failed, file=sys.stderr)
+        sys.exit(0)
+    if len(sys.argv) > 2 and sys.argv[2] == "route":
+        text, done, failed = translate_route(sys.argv[1], "/repo/_build/src")
         print(text)
         print("-- done:", done, "\n-- failed:", failed, file=sys.stderr)
         sys.exit(0)
